@@ -9,6 +9,7 @@
 //	           read-back vs the Lean write loop; SPEC: notifications/positions delimit exactly the batch
 //	system     system: the assembled server (lrsrv.Start), direct + RPC + raw-packet writes, reads through backend.Querier
 //	           and the RPC client; SPEC: read-back = concatenation of acknowledged batches per partition
+//	xread      concurrent readers on separate connections over a quiescent store: each read = exactly the partition's events
 //	stress     thorough only: K free-running writers (RPC and direct, shared and private partitions) + concurrent readers;
 //	           the exactly-once/order/content property is checked on a final read after all writers finished and flushed
 package main
@@ -28,6 +29,7 @@ import (
 	"github.com/logrange/logrange/api"
 	"github.com/logrange/logrange/api/rpc"
 	"github.com/logrange/logrange/pkg/model"
+	"github.com/logrange/logrange/pkg/model/tag"
 	"github.com/logrange/range/pkg/transport"
 	"verifharness/internal/lrsrv"
 	"verifharness/internal/vh"
@@ -279,6 +281,194 @@ func sectionStress(rng *vh.Rng) {
 }
 
 // ---------------------------------------------------------------------------------------------
+// xread: concurrent readers on separate connections over a QUIESCENT store (no writer to the partitions being read, flush
+// awaited — so the tail race #34 cannot occur): every reader must get exactly its partition's events, every time.
+
+type xreadCase struct {
+	Parts   int `json:"parts"`
+	Events  int `json:"events"`  // per partition
+	MsgLen  int `json:"msg_len"` // filler bytes per message (results must exceed the server's 4 KB initial result buffer)
+	Readers int `json:"readers"`
+	Reads   int `json:"reads"`   // full reads per reader at most
+	DurMs   int `json:"dur_ms"`  // … and readers stop after this many milliseconds (0 = no time limit)
+	Writers int `json:"writers"` // concurrent writers to OTHER partitions (thorough)
+	Page    int `json:"page"`
+}
+
+func xMsg(part, i, l int) string {
+	return fmt.Sprintf("partition %d event %06d ", part, i) + strings.Repeat(string(rune('a'+(part+i)%26)), l+i%50)
+}
+
+func runXRead(c xreadCase, sec *vh.Section) {
+	dir := lrsrv.NewDir()
+	srv, err := lrsrv.Start(dir, lrsrv.Opts{})
+	if err != nil {
+		os.RemoveAll(dir)
+		res.Note("xread: %v", err)
+		return
+	}
+	defer func() { srv.Stop(); os.RemoveAll(dir) }()
+	ctx := context.Background()
+	lines := make([]string, c.Parts)
+	for p := 0; p < c.Parts; p++ {
+		tags := fmt.Sprintf("pk=%d,app=r%d", p, p)
+		if ts, err := tag.Parse(tags); err == nil {
+			lines[p] = string(ts.Line())
+		}
+		for off := 0; off < c.Events; off += 500 {
+			var evs []*api.LogEvent
+			for i := off; i < off+500 && i < c.Events; i++ {
+				evs = append(evs, &api.LogEvent{Timestamp: int64(i + 1), Message: xMsg(p, i, c.MsgLen), Fields: fmt.Sprintf("i=%d", i%7)})
+			}
+			var wr api.WriteResult
+			if err := srv.Client.Write(ctx, tags, fmt.Sprintf("src=x%d", p), evs, &wr); err != nil || wr.Err != nil {
+				res.Note("xread: write failed: %v %v", err, wr.Err)
+				return
+			}
+		}
+	}
+	srv.FlushWait()
+	for p := 0; p < c.Parts; p++ {
+		if src, _, err := srv.TIndex.GetOrCreateJournal(fmt.Sprintf("pk=%d,app=r%d", p, p)); err == nil {
+			waitConfirmed(ctx, srv.Journals, src, c.Events)
+			srv.TIndex.Release(src)
+		}
+	}
+	var failed int32
+	var total int64
+	check := func(p int, evs []*api.LogEvent, who string) string {
+		if len(evs) != c.Events {
+			return fmt.Sprintf("%s: partition pk=%d: %d events returned, %d written", who, p, len(evs), c.Events)
+		}
+		for i, e := range evs {
+			wantF := fmt.Sprintf("src=x%d,i=%d", p, i%7)
+			if e.Timestamp != int64(i+1) || e.Message != xMsg(p, i, c.MsgLen) || e.Tags != lines[p] || e.Fields != wantF {
+				return fmt.Sprintf("%s: partition pk=%d event #%d read back as ts=%d tags=%q fields=%q msg=%.60q; written as ts=%d tags=%q fields=%q msg=%.60q",
+					who, p, i, e.Timestamp, e.Tags, e.Fields, e.Message, i+1, lines[p], wantF, xMsg(p, i, c.MsgLen))
+			}
+		}
+		return ""
+	}
+	// phase 1: one sequential read per partition (a failure here is not schedule dependent)
+	for p := 0; p < c.Parts; p++ {
+		evs, err := readPart(srv, "rpc", fmt.Sprintf("select from pk=%d", p), c.Page, c.Events+10)
+		msg := ""
+		if err != nil {
+			msg = err.Error()
+		} else {
+			msg = check(p, evs, "sequential read")
+		}
+		if msg != "" {
+			res.SpecFail(vh.SpecFailure{Section: "xread", Kind: "readback-differs", Input: c, Impl: clip(msg), Spec: "the partition's events", What: "a sequential read of a quiescent partition does not return exactly what was written"})
+			return
+		}
+	}
+	stopW := make(chan struct{})
+	var wwg sync.WaitGroup
+	for w := 0; w < c.Writers; w++ {
+		wwg.Add(1)
+		go func(w int) {
+			defer wwg.Done()
+			cl, err := rpc.NewClient(transport.Config{ListenAddr: srv.Addr})
+			if err != nil {
+				return
+			}
+			defer cl.Close()
+			for i := 0; ; i++ {
+				select {
+				case <-stopW:
+					return
+				default:
+				}
+				evs := make([]*api.LogEvent, 50)
+				for k := range evs {
+					evs[k] = &api.LogEvent{Timestamp: int64(i), Message: fmt.Sprintf("other writer %d batch %d %s", w, i, strings.Repeat("W", 80))}
+				}
+				var wr api.WriteResult
+				cl.Write(ctx, fmt.Sprintf("other=%d", w), "", evs, &wr)
+			}
+		}(w)
+	}
+	var rwg sync.WaitGroup
+	deadline := time.Now().Add(time.Duration(c.DurMs) * time.Millisecond)
+	for r := 0; r < c.Readers; r++ {
+		rwg.Add(1)
+		go func(r int) {
+			defer rwg.Done()
+			cl, err := rpc.NewClient(transport.Config{ListenAddr: srv.Addr})
+			if err != nil {
+				res.Note("xread: client: %v", err)
+				return
+			}
+			defer cl.Close()
+			p := r % c.Parts
+			for k := 0; k < c.Reads && atomic.LoadInt32(&failed) == 0 && (c.DurMs == 0 || time.Now().Before(deadline)); k++ {
+				var evs []*api.LogEvent
+				req := &api.QueryRequest{Query: fmt.Sprintf("select from pk=%d", p), Limit: c.Page}
+				msg := ""
+				for len(evs) <= c.Events {
+					qr := &api.QueryResult{}
+					if err := cl.Query(ctx, req, qr); err != nil || qr.Err != nil {
+						msg = fmt.Sprintf("reader %d: query failed: %v %v", r, err, qr.Err)
+						break
+					}
+					if len(qr.Events) == 0 {
+						break
+					}
+					evs = append(evs, qr.Events...)
+					nr := qr.NextQueryRequest
+					req = &nr
+				}
+				if msg == "" {
+					msg = check(p, evs, fmt.Sprintf("reader %d (own connection), read %d", r, k))
+				}
+				if msg != "" {
+					if atomic.CompareAndSwapInt32(&failed, 0, 1) {
+						res.SpecFail(vh.SpecFailure{Section: "xread", Kind: "concurrent-read-foreign-or-missing-events", Input: c, Impl: clip(msg), Spec: "exactly the events written to the partition asked for",
+							What: "a reader racing with other readers (separate connections, store quiescent) got events that are not its partition's acknowledged events in order"})
+					}
+					return
+				}
+				atomic.AddInt64(&total, 1)
+			}
+		}(r)
+	}
+	rwg.Wait()
+	close(stopW)
+	wwg.Wait()
+	res.Eval(sec, fmt.Sprint(c))
+	res.Dist(sec, fmt.Sprintf("readers=%d writers=%d", c.Readers, c.Writers))
+	res.Note("xread %+v: %d concurrent full reads intact", c, atomic.LoadInt64(&total))
+}
+
+func sectionXRead(rng *vh.Rng) {
+	sec := res.Section("xread", "stress",
+		"concurrent readers over a quiescent store: 4 partitions x 1500 self-describing events (~110-byte messages, write-level + own fields; a full result is ~250 KB, far above the server's 4 KB initial result buffer) written through RPC, flush awaited; one sequential read per partition, then three configurations of 8..12 readers, each on its own RPC connection, read their partition completely over and over for 1.5 s each (thorough: 3 rounds of 4 s each, two of them with 2 writers to other partitions; page sizes 10000 and 300): every read must be exactly the partition's events (count, order, timestamp, message, tag line, fields). No writer touches the partitions being read, so the tail race #34 cannot occur. non-trivial = every run")
+	dur, rounds := 1500, 1
+	if args.Thorough {
+		dur, rounds = 4000, 3
+	}
+	for i := 0; i < rounds; i++ {
+		w := 0
+		if args.Thorough && i > 0 {
+			w = 2
+		}
+		for _, c := range []xreadCase{
+			{Parts: 4, Events: 1500, MsgLen: 80, Readers: 8, Reads: 1 << 20, DurMs: dur, Page: 10000, Writers: w},
+			{Parts: 4, Events: 3000, MsgLen: 100, Readers: 8, Reads: 1 << 20, DurMs: dur, Page: 10000, Writers: w},
+			{Parts: 3, Events: 2000, MsgLen: 60, Readers: 12, Reads: 1 << 20, DurMs: dur, Page: 300, Writers: w},
+		} {
+			runXRead(c, sec)
+			if len(res.SpecFailures) > 0 && res.SpecFailures[len(res.SpecFailures)-1].Section == "xread" {
+				res.Done(sec)
+				return
+			}
+		}
+	}
+	res.Done(sec)
+}
+
+// ---------------------------------------------------------------------------------------------
 
 func replay(path string) {
 	var d corpusDoc
@@ -287,6 +477,17 @@ func replay(path string) {
 	}
 	var cs corpusSets
 	if !cs.add(d) {
+		if d.Section == "xread" {
+			var c xreadCase
+			json.Unmarshal(d.Input, &c)
+			sec := res.Section("xread", "replay", "re-run of one concurrent-readers configuration (schedule dependent)")
+			runXRead(c, sec)
+			for _, f := range res.SpecFailures {
+				fmt.Printf("SPEC-FAILURE kind=%s: %s\n  impl=%s\n", f.Kind, f.What, f.Impl)
+			}
+			res.Write(args.Out)
+			return
+		}
 		if d.Section == "stress" {
 			var c stressCase
 			json.Unmarshal(d.Input, &c)
@@ -354,6 +555,7 @@ func main() {
 	sectionPacket(rng.Fork("packet"), cs.pkt)
 	sectionWriteLoop(rng.Fork("writeloop"), cs.wl)
 	sectionSystem(rng.Fork("system"), cs.sys)
+	sectionXRead(rng.Fork("xread"))
 	sectionStress(rng.Fork("stress"))
 	res.Write(args.Out)
 }
